@@ -180,6 +180,101 @@ func seenBefore(e sock.Event) bool { return false }
 
 // runRegRace: n connections present the same (fresh) key at the same moment, `rounds` times. Whatever the order in
 // which the manager sees their joins, exactly one is accepted (answered) and all others are refused (closed).
+// runRegScale: n terminals online at once, all but k leave, then (a) a command for one of the remaining terminals must
+// reach it, (b) a second connection presenting a remaining terminal's key must be refused, (c) a terminal that left can
+// join again. The registry model answers "delivered=1 dup=refused rejoin=joined" for every n and k.
+func runRegScale(n, k int) (string, *fw.OracleFailure) {
+	srv, err := sysServer()
+	if err != nil {
+		return "server-start-failed", &fw.OracleFailure{Sig: "server/start", Msg: err.Error()}
+	}
+	fail := func(sig, msg string) (string, *fw.OracleFailure) {
+		return "scenario-failed:" + sig, &fw.OracleFailure{Sig: sig, Msg: msg}
+	}
+	phones := make([][]byte, n)
+	cls := make([]*sock.Client, n)
+	defer func() {
+		for _, c := range cls {
+			if c != nil {
+				c.Close()
+			}
+		}
+		time.Sleep(150 * time.Millisecond)
+	}()
+	for i := 0; i < n; i++ {
+		phones[i] = actNextPhone()
+		c, err := sock.Dial(srv.Addr())
+		if err != nil {
+			return fail("server/refuses-connection", err.Error())
+		}
+		cls[i] = c
+		_ = c.Send(frames.Build(frames.H{ID: 0x0002, Phone: phones[i], Serial: 1}, nil))
+	}
+	for i := 0; i < n; i++ {
+		if fs := cls[i].ReadFrames(1, 3*time.Second); len(fs) < 1 {
+			return fail("registry/join-unanswered", fmt.Sprintf("terminal %d of %d connecting at once got no reply to its first heartbeat", i+1, n))
+		}
+	}
+	mark := srv.Len()
+	for i := k; i < n; i++ {
+		cls[i].Close()
+		cls[i] = nil
+	}
+	left := 0
+	deadline := time.Now().Add(5 * time.Second)
+	for left < n-k && time.Now().Before(deadline) {
+		left = 0
+		for _, e := range srv.Snapshot()[mark:] {
+			if sock.Str(e, "event") == "leave" {
+				left++
+			}
+		}
+		time.Sleep(10 * time.Millisecond)
+	}
+	// (a) a command for a terminal that is still connected
+	t := k / 2
+	key := phoneStr(phones[t])
+	_ = srv.Command(fmt.Sprintf("send scale %s %d 00 %d", key, 0x8103, 1500))
+	delivered := 0
+	if fs := cls[t].ReadFrames(1, 1200*time.Millisecond); len(fs) >= 1 {
+		if h, _, ok := frames.Parse(fs[0]); ok && h.ID == 0x8103 {
+			delivered = 1
+			_ = cls[t].Send(frames.Build(frames.H{ID: 0x0001, Phone: phones[t], Serial: 2}, []byte{byte(h.Serial >> 8), byte(h.Serial), 0x81, 0x03, 0}))
+		}
+	}
+	// (b) a second connection with the key of a connected terminal
+	dup := "refused"
+	if d, err := sock.Dial(srv.Addr()); err == nil {
+		_ = d.Send(frames.Build(frames.H{ID: 0x0002, Phone: phones[t], Serial: 7}, nil))
+		if fs := d.ReadFrames(1, 700*time.Millisecond); len(fs) >= 1 {
+			dup = "accepted"
+		}
+		d.Close()
+	}
+	// (c) a terminal that left comes back
+	rejoin := "joined"
+	if n > k {
+		if d, err := sock.Dial(srv.Addr()); err == nil {
+			_ = d.Send(frames.Build(frames.H{ID: 0x0002, Phone: phones[n-1], Serial: 9}, nil))
+			if fs := d.ReadFrames(1, 1500*time.Millisecond); len(fs) < 1 {
+				rejoin = "refused"
+			}
+			cls[n-1] = d
+		}
+	}
+	res := fmt.Sprintf("delivered=%d dup=%s rejoin=%s", delivered, dup, rejoin)
+	var orc *fw.OracleFailure
+	switch {
+	case delivered != 1:
+		orc = &fw.OracleFailure{Sig: "registry/route-to-owner", Msg: fmt.Sprintf("%d terminals were online, %d left; a command for terminal %s, still connected, did not reach it", n, n-k, key)}
+	case dup != "refused":
+		orc = &fw.OracleFailure{Sig: "registry/owners", Msg: fmt.Sprintf("%d terminals were online, %d left; a second connection presenting the key of the connected terminal %s was accepted", n, n-k, key)}
+	case rejoin != "joined":
+		orc = &fw.OracleFailure{Sig: "registry/key-not-freed", Msg: fmt.Sprintf("a terminal that had left could not join again (%d online, %d left)", n, n-k)}
+	}
+	return res, orc
+}
+
 func runRegRace(n, rounds int) (string, *fw.OracleFailure) {
 	srv, err := sysServer()
 	if err != nil {
@@ -309,8 +404,22 @@ var C11 = &fw.Prop{ID: "C11",
 		for i := 0; i < rr; i++ {
 			emit(fw.Case{Op: "regrace", Args: []string{strconv.Itoa(2 + r.Intn(7)), "25"}})
 		}
+		// many terminals online at once, most of them leave: the registry still knows exactly the ones that stayed
+		emit(fw.Case{Op: "regscale", Args: []string{"60", "7"}})
+		emit(fw.Case{Op: "regscale", Args: []string{"1100", "200"}})
+		if tier == "thorough" {
+			emit(fw.Case{Op: "regscale", Args: []string{"2100", "500"}})
+			emit(fw.Case{Op: "regscale", Args: []string{"1030", "3"}})
+		}
 	},
 	Exec: func(c fw.Case) string {
+		if c.Op == "regscale" {
+			n, _ := strconv.Atoi(c.Args[0])
+			k, _ := strconv.Atoi(c.Args[1])
+			res, o := runRegScale(n, k)
+			regLast.key, regLast.orc = "scale "+strings.Join(c.Args, " "), o
+			return res
+		}
 		if c.Op == "regrace" {
 			n, _ := strconv.Atoi(c.Args[0])
 			rounds, _ := strconv.Atoi(c.Args[1])
@@ -323,6 +432,17 @@ var C11 = &fw.Prop{ID: "C11",
 		return res
 	},
 	Oracle: func(c fw.Case) *fw.OracleFailure {
+		if c.Op == "regscale" {
+			if regLast.key == "scale "+strings.Join(c.Args, " ") {
+				o := regLast.orc
+				regLast.key = ""
+				return o
+			}
+			n, _ := strconv.Atoi(c.Args[0])
+			k, _ := strconv.Atoi(c.Args[1])
+			_, o := runRegScale(n, k)
+			return o
+		}
 		if c.Op == "regrace" {
 			if regLast.key == strings.Join(c.Args, " ") {
 				o := regLast.orc
